@@ -113,6 +113,10 @@ OBSERVATIONS = [
      "T = private(mass, density); T.Ni._density = 8.5; a = T.Ni[58].density; b = pt.Ni[58].density; result = [a, b, a / 8.5, b / pt.Ni.density]; check = abs(a / 8.5 - T.Ni[58].mass / T.Ni.mass) < 1e-12 and abs(b / pt.Ni.density - pt.Ni[58].mass / pt.Ni.mass) < 1e-12"),
     (("C06", "C10"), "private table with H mass 1, isotope density",
      "T = private(mass, density); T.H._mass = 1.0; result = [T.D.density / T.H.density, pt.D.density / pt.H.density]; check = abs(result[0] - T.D.mass / 1.0) < 1e-12 and abs(result[1] - pt.D.mass / pt.H.mass) < 1e-12"),
+    (("C01", "C10"), "a private table created under the name of a discarded one",
+     "nm = 'independence_reuse_%d' % __import__('os').getpid(); T1 = core.PeriodicTable(nm); mass.init(T1); density.init(T1); a = formula('Fe2O3', table=T1); core.PRIVATE_TABLES.pop(nm, None); "
+     "T2 = core.PeriodicTable(nm); mass.init(T2); density.init(T2); T2.Fe._mass = 60.0; T2.Fe._density = 1.25; b = formula('Fe', table=T2); c = formula('Fe2O3', table=T2); core.PRIVATE_TABLES.pop(nm, None); "
+     "result = [b.mass, b.density, all(x.table is T2.Fe.table and core.change_table(x, T2) is x for x in c.atoms), all(core.change_table(x, T1) is x for x in a.atoms)]; check = result == [60.0, 1.25, True, True]"),
     # ---- neutron data
     (("C07", "C03"), "Ni[58] record", "n = pt.Ni[58].neutron; result = [n.b_c, n.total, n.absorption, pt.Ni[58].nuclear_spin]"),
     (("C09",), "nuclear spin first", "result = [pt.Fe[56].nuclear_spin if hasattr(pt.Fe[56], 'nuclear_spin') else 'no attribute', pt.Fe[57].neutron.b_c]"),
